@@ -670,17 +670,29 @@ def _perturb(t):
     return t
 
 
+def _out_of_memory(exc):
+    return isinstance(exc, MemoryError) or 'MemoryError' in type(exc).__name__
+
+
 def check_many_targets(col, e, build, expr, rendering, kinds):
     """ONE T object evaluated against several different targets inside one glom() call ([expr] over a list of targets, and the
     same object in two values of a dict spec): each evaluation replays the operations on ITS target, nested T arguments
     included - element i equals the direct Python evaluation on target i"""
     try:
         wants = [ref_eval(e, build()), ref_eval(e, _perturb(build())), ref_eval(e, build())]
-    except (RefFail, RecursionError):
+    except (RefFail, RecursionError, MemoryError):
         col.count('many_target_cases_skipped_reference_fails_on_the_perturbed_target')
+        return
+    if any(too_big(w) for w in wants):
+        # (the perturbed target turned the expression into an astronomically large value: whether it still fits into the memory of
+        # this process is not what is being checked)
+        col.count('many_target_cases_skipped_value_too_big')
         return
     targets = [build(), _perturb(build()), build()]
     got = call(G, targets, [expr])
+    if not got.ok and _out_of_memory(got.exc):
+        col.count('many_target_cases_skipped_out_of_memory')
+        return
     col.count('many_target_evaluations')
     distinct = not same_value(wants[0], wants[1])
     if distinct:
@@ -693,6 +705,9 @@ def check_many_targets(col, e, build, expr, rendering, kinds):
         return
     t0, t1 = build(), _perturb(build())
     got = call(G, [t0, t1], {'first': (T[0], expr), 'second': (T[1], expr), 'again': (T[0], expr)})
+    if not got.ok and _out_of_memory(got.exc):
+        col.count('many_target_cases_skipped_out_of_memory')
+        return
     if not got.ok or not (same_value(got.value['first'], wants[0]) and same_value(got.value['second'], wants[1])
                           and same_value(got.value['again'], wants[0])):
         col.violation('C02/one-expression-on-several-targets-in-one-call:dict:' + _last_kind(kinds),
